@@ -63,7 +63,8 @@ def tlc_dir():
 def run_tlc(module, cfg, workers=None, timeout=600, env=None, extra=None, d=None):
     own = d is None
     d = d or tlc_dir()
-    e = dict(os.environ, JAVA_TOOL_OPTIONS="-Xss1g")
+    # TLC creates an (empty) tlc-<n> directory under java.io.tmpdir on every start: keep it in the scratch directory
+    e = dict(os.environ, JAVA_TOOL_OPTIONS="-Xss1g -Djava.io.tmpdir=" + d)
     if env:
         e.update(env)
     cmd = ["tlc", "-workers", str(workers or NCPU), "-metadir", os.path.join(d, "meta-" + cfg), "-config", cfg + ".cfg"] + (extra or []) + [module + ".tla"]
@@ -168,7 +169,7 @@ def validate(trace_paths, timeout=900, shards=None):
     t0 = time.time()
     for i, sp in enumerate(all_shards):
         env = dict(e, VERIF_TRACE=sp)
-        cmd = JAVA_TLC_SERIAL + ["-workers", "1", "-metadir", os.path.join(d, f"meta{i}"), "-config", "Trace.cfg", "Trace.tla"]
+        cmd = JAVA_TLC_SERIAL[:1] + ["-Djava.io.tmpdir=" + d] + JAVA_TLC_SERIAL[1:] + ["-workers", "1", "-metadir", os.path.join(d, f"meta{i}"), "-config", "Trace.cfg", "Trace.tla"]
         procs.append((sp, subprocess.Popen(cmd, cwd=d, env=env, stdout=subprocess.PIPE, stderr=subprocess.STDOUT, text=True)))
     bad = []
     stats = collections.Counter()
